@@ -22,6 +22,8 @@ pub struct Case {
 
 pub fn cfg() -> GenCfg {
     let mut g = GenCfg::full();
+    // (`-` and `+` are not names the rename and navigation properties are about)
+    g.block_labels = false;
     g.max_stmts = 28;
     g.constructs_boost = true;
     g
